@@ -209,9 +209,10 @@ class OsuMapMeta(
             f"TimelineZoom: {self.timeline_zoom:g}",
             "",
             "[Metadata]",
-            f"Title:{unidecode(self.title)}",
+            # unidecode turns U+2028 / U+2029 into a newline, which would break the line
+            f"Title:{unidecode(self.title).replace(chr(10), ' ')}",
             f"TitleUnicode:{self.title_unicode}",
-            f"Artist:{unidecode(self.artist)}",
+            f"Artist:{unidecode(self.artist).replace(chr(10), ' ')}",
             f"ArtistUnicode:{self.artist_unicode}",
             f"Creator:{self.creator}",
             f"Version:{self.version}",
